@@ -503,8 +503,8 @@ def item_tick(repo):
     if not b or b.group(1) not in ('pending_connections', 'pending_dials'):
         raise ValueError('tick: dial budget')
     budget = 'pendingConnections' if b.group(1) == 'pending_connections' else 'pendingDials'
-    if 'for mut peer in eligible.into_iter().take(number_to_dial) {' not in f:
-        raise ValueError('tick: take(number_to_dial)')
+    if not re.search(r'\.saturating_sub\(self\.\w+\.len\(\)\), ?\); for mut peer in eligible\.into_iter\(\)\.take\(number_to_dial\) \{', f):
+        raise ValueError('tick: the dial loop must take exactly number_to_dial, computed just before it')
     idx = re.search(r'let idx = self \.dial_backoff_states \.get\(&peer\.peer_id\) \.map\(\|state\| state\.attempts\) \.unwrap_or\(0\) % peer\.address\.len\(\); let address = peer\.address\.remove\(idx\); self\.dial_peer\(address, Some\(peer\.peer_id\), sender\); self\.pending_dials\.insert\(peer\.peer_id, receiver\);', f)
     ok_arm = re.search(r'Ok\(Ok\(returned_peer_id\)\) => \{ (?:debug_assert_eq!\(peer_id, &returned_peer_id\); )?self\.dial_backoff_states\.remove\(peer_id\); false \}', f)
     args = r'\( now, self\.config\.connection_backoff\(\), self\.config\.max_connection_backoff\(\), ?\)'
@@ -938,6 +938,8 @@ def pin_targets(repo):
         ('dialing/handle_connecting_result', cmi, r'fn\s+handle_connecting_result\s*\(.*?\}: ConnectingOutput,?\s*\)'),
         ('dialing/handle_incoming_task', cmi, r'async\s+fn\s+handle_incoming_task\s*\([^)]*\)\s*->\s*ConnectingOutput'),
         ('dialing/add_peer', cmi, r'fn\s+add_peer\s*\(&mut self, new_connection: Connection\)'),
+        ('dialing/handle_connect_request', cmi, r'fn\s+handle_connect_request\s*\(\s*&mut self,[^)]*\)'),
+        ('dialing/known_peers_insert', block_after(cm, r'impl\s+KnownPeers\s*\{'), r'pub fn insert\s*\(&self, peer_info: PeerInfo\)\s*->\s*Option<PeerInfo>'),
         ('netapi/connect', nmi, r'async\s+fn\s+connect\s*\(&self, addr: Address, peer_id: Option<PeerId>\)\s*->\s*Result<PeerId>'),
         ('netapi/disconnect', nmi, r'fn\s+disconnect\s*\(&self, peer_id: PeerId\)\s*->\s*Result<\(\)>'),
         ('netapi/shutdown', nmi, r'async\s+fn\s+shutdown\s*\(&self\)\s*->\s*Result<\(\)>'),
@@ -980,7 +982,14 @@ def make_pin_item(group, lean_name, doc):
 
 
 item_dialing = make_pin_item('dialing', 'dialingShapeChecked', 'dial_peer, dial_peer_task, handle_connecting_result, handle_incoming_task, add_peer are word for word the functions the dial / admission models were written for')
-item_netapi = make_pin_item('netapi', 'netApiShapeChecked', 'NetworkInner::{connect, disconnect, shutdown, is_closed, peers} and NetworkRef::upgrade are word for word the functions the API lifecycle model was written for')
+_item_netapi_base = make_pin_item('netapi', 'netApiShapeChecked', 'NetworkInner::{connect, disconnect, shutdown, is_closed, peers} and NetworkRef::upgrade are word for word the functions the API lifecycle model was written for')
+def item_netapi(repo):
+    nm = strip_comments(read(repo, 'crates/anemo/src/network/mod.rs'))
+    if re.search(r'impl\s+Drop\s+for\s+(NetworkInner|Network)\b', nm):
+        raise ValueError('netapi: a Drop impl on the network handle (the model has none: the last handle going away only closes the mailbox)')
+    return _item_netapi_base(repo)
+
+
 item_tlsconfig = make_pin_item('tlsconfig', 'tlsConfigShapeChecked', 'EndpointConfigBuilder::{build, server_config, client_config}, client_config_with_expected_server_identity and QuicConfig::transport_config are word for word the functions the name / pin / idle-timeout models were written for')
 item_endpoint = make_pin_item('endpoint', 'endpointShapeChecked', 'Endpoint::{connect_with_client_config, wait_idle} are word for word the functions the models were written for')
 
